@@ -18,6 +18,13 @@ WAVES = ["haar", "db2", "db4", "sym3", "coif1"]
 
 # ---------------------------------------------------------------- helpers --
 
+def _cap(maxn, small, big):
+    """Size cap of a maker: `small` for the ordinary generators, `big` when the caller asks
+    for large operands (maxn > 12: the size-dependent regime - lengths past 16 / 32, more
+    than three batch / coil / channel entries)."""
+    return big if maxn > 12 else small
+
+
 def _shape(rng, ndim, maxn, minn=1):
     return [int(rng.integers(minn, maxn + 1)) for _ in range(ndim)]
 
@@ -186,11 +193,11 @@ def _mk_fft(name):
 
 def mk_MatMul(rng, ishape, maxn, right=False):
     if ishape is None:
-        ishape = _shape(rng, int(rng.integers(2, 5)), min(maxn, 4))
+        ishape = _shape(rng, int(rng.integers(2, 5)), _cap(maxn, min(maxn, 4), 9))
     if len(ishape) < 2:
         return None
     batch = list(ishape[:-2])
-    m = int(rng.integers(1, min(maxn, 4) + 1))
+    m = int(rng.integers(1, _cap(maxn, min(maxn, 4), 17) + 1))
     mb = _bcast_partner(rng, batch)
     adjoint = bool(rng.random() < 0.4)
     if not right:
@@ -373,7 +380,7 @@ def mk_InverseWavelet(rng, ishape, maxn):
 
 
 def mk_Sum(rng, ishape, maxn):
-    ishape = ishape or _shape(rng, int(rng.integers(2, 5)), min(maxn, 4))
+    ishape = ishape or _shape(rng, int(rng.integers(2, 5)), _cap(maxn, min(maxn, 4), 9))
     nd = len(ishape)
     if nd < 2:
         return None
@@ -385,13 +392,13 @@ def mk_Sum(rng, ishape, maxn):
 
 
 def mk_Tile(rng, ishape, maxn):
-    ishape = ishape or _shape(rng, int(rng.integers(1, 3)), min(maxn, 4))
+    ishape = ishape or _shape(rng, int(rng.integers(1, 3)), _cap(maxn, min(maxn, 4), 17))
     k = int(rng.integers(1, 3))
     nd = len(ishape) + k
     ax = sorted(rng.choice(nd, size=k, replace=False).tolist())
     oshape, it = [], iter(ishape)
     for d in range(nd):
-        oshape.append(int(rng.integers(1, 4)) if d in ax else int(next(it)))
+        oshape.append(int(rng.integers(1, _cap(maxn, 4, 8))) if d in ax else int(next(it)))
     axes = [int(a - nd) if rng.random() < 0.4 else int(a) for a in ax]
     return {"op": "Tile", "ishape": ishape, "oshape": oshape, "axes": axes}
 
@@ -436,10 +443,11 @@ def mk_FiniteDifference(rng, ishape, maxn):
 def mk_NUFFT(rng, ishape, maxn):
     if ishape is None:
         nd = int(rng.integers(1, 4))
-        ishape = _shape(rng, int(rng.integers(0, 2)), 3) + _shape(rng, nd, [8, 6, 4][nd - 1])
+        ishape = _shape(rng, int(rng.integers(0, 2)), _cap(maxn, 3, 6)) + _shape(
+            rng, nd, _cap(maxn, [8, 6, 4], [40, 18, 9])[nd - 1])
     else:
         nd = int(rng.integers(1, min(3, len(ishape)) + 1))
-    pts = _shape(rng, int(pick(rng, [1, 1, 2])), 5)
+    pts = _shape(rng, int(pick(rng, [1, 1, 2])), _cap(maxn, 5, 12))
     return {"op": "NUFFT", "ishape": ishape, "oshape": list(ishape[:-nd]) + pts, "nd": nd,
             "pts": pts, "ccls": pick(rng, ["inside", "inside", "outside", "ties", "dup"]),
             "oversamp": pick(rng, [1.25, 1.25, 1.5, 2]), "width": pick(rng, [4, 4, 3, 5, 6]),
@@ -449,13 +457,13 @@ def mk_NUFFT(rng, ishape, maxn):
 def mk_NUFFTAdjoint(rng, ishape, maxn):
     nd = int(rng.integers(1, 4))
     if ishape is None:
-        pts = _shape(rng, int(pick(rng, [1, 1, 2])), 5)
-        batch = _shape(rng, int(rng.integers(0, 2)), 3)
+        pts = _shape(rng, int(pick(rng, [1, 1, 2])), _cap(maxn, 5, 12))
+        batch = _shape(rng, int(rng.integers(0, 2)), _cap(maxn, 3, 6))
         ishape = batch + pts
     else:
         pts = list(ishape[-1:])
         batch = list(ishape[:-1])
-    grid = _shape(rng, nd, [8, 6, 4][nd - 1])
+    grid = _shape(rng, nd, _cap(maxn, [8, 6, 4], [40, 18, 9])[nd - 1])
     return {"op": "NUFFTAdjoint", "ishape": ishape, "oshape": batch + grid, "nd": nd,
             "pts": pts, "grid": grid,
             "ccls": pick(rng, ["inside", "inside", "outside", "ties", "dup"]),
@@ -476,7 +484,7 @@ def conv_out(m, n, s, mode):
 def _conv_shapes(rng, maxn, fixed_m=None, fixed_n=None):
     D = len(fixed_m) if fixed_m is not None else len(fixed_n) if fixed_n is not None \
         else int(rng.integers(1, 4))
-    lim = [maxn, min(maxn, 5), min(maxn, 4)][D - 1]
+    lim = [maxn, _cap(maxn, min(maxn, 5), 12), _cap(maxn, min(maxn, 4), 6)][D - 1]
     mode = pick(rng, ["full", "valid"])
     rel = pick(rng, ["shorter", "shorter", "equal", "longer"])
     m = list(fixed_m) if fixed_m is not None else _shape(rng, D, lim)
@@ -502,7 +510,7 @@ def mk_ConvolveData(rng, ishape, maxn):
     if ishape is None:
         D, m, n, mode, strides = _conv_shapes(rng, maxn)
         batch = _shape(rng, int(rng.integers(0, 2)), 3)
-        ci = int(rng.integers(1, 4))
+        ci = int(rng.integers(1, _cap(maxn, 4, 7)))
         ishape = batch + ([ci] if multi else []) + m
     else:
         need = 2 if multi else 1
@@ -513,7 +521,7 @@ def mk_ConvolveData(rng, ishape, maxn):
         D, m, n, mode, strides = _conv_shapes(rng, maxn, fixed_m=m)
         batch = list(ishape[:-D - (1 if multi else 0)])
         ci = ishape[-D - 1] if multi else 1
-    co = int(rng.integers(1, 4))
+    co = int(rng.integers(1, _cap(maxn, 4, 7)))
     p = conv_out(m, n, strides or [1] * D, mode)
     fshape = ([co, ci] if multi else []) + n
     return {"op": "ConvolveData", "ishape": ishape,
@@ -526,7 +534,7 @@ def mk_ConvolveFilter(rng, ishape, maxn):
     multi = bool(rng.random() < 0.5)
     if ishape is None:
         D, m, n, mode, strides = _conv_shapes(rng, maxn)
-        co, ci = int(rng.integers(1, 4)), int(rng.integers(1, 4))
+        co, ci = int(rng.integers(1, _cap(maxn, 4, 7))), int(rng.integers(1, _cap(maxn, 4, 7)))
         ishape = ([co, ci] if multi else []) + n
     else:
         if multi and len(ishape) < 3:
@@ -604,10 +612,10 @@ def mk_Sense(rng, ishape, maxn):
     if ishape is not None:
         return None
     nd = int(pick(rng, [2, 2, 3]))
-    img = _shape(rng, nd, 5 if nd == 2 else 4, minn=2)
-    nc = int(rng.integers(1, 5))
+    img = _shape(rng, nd, _cap(maxn, 5, 20) if nd == 2 else _cap(maxn, 4, 9), minn=2)
+    nc = int(rng.integers(1, _cap(maxn, 5, 10)))
     noncart = bool(rng.random() < 0.5)
-    pts = _shape(rng, int(pick(rng, [1, 2])), 5) if noncart else None
+    pts = _shape(rng, int(pick(rng, [1, 2])), _cap(maxn, 5, 12)) if noncart else None
     ksp = ([nc] + pts) if noncart else ([nc] + img)
     wkind = pick(rng, ["none", "kspace", "kspace", "percoil"])
     batch = None if rng.random() < 0.4 else int(rng.integers(1, nc + 1))
@@ -620,9 +628,9 @@ def mk_ConvSense(rng, ishape, maxn):
     if ishape is not None:
         return None
     nd = int(pick(rng, [1, 2, 2]))
-    img_ker = _shape(rng, nd, 5, minn=2)
+    img_ker = _shape(rng, nd, _cap(maxn, 5, 12), minn=2)
     mps_ker = [int(rng.integers(1, a + 1)) for a in img_ker]
-    nc = int(rng.integers(1, 4))
+    nc = int(rng.integers(1, _cap(maxn, 4, 8)))
     p = [a - b + 1 for a, b in zip(img_ker, mps_ker)]
     noncart = bool(rng.random() < 0.4)
     pts = _shape(rng, 1, 6) if noncart else None
@@ -636,9 +644,9 @@ def mk_ConvImage(rng, ishape, maxn):
     if ishape is not None:
         return None
     nd = int(pick(rng, [1, 2, 2]))
-    img_ker = _shape(rng, nd, 5, minn=2)
+    img_ker = _shape(rng, nd, _cap(maxn, 5, 12), minn=2)
     mps_ker = [int(rng.integers(1, a + 1)) for a in img_ker]
-    nc = int(rng.integers(1, 4))
+    nc = int(rng.integers(1, _cap(maxn, 4, 8)))
     p = [a - b + 1 for a, b in zip(img_ker, mps_ker)]
     noncart = bool(rng.random() < 0.4)
     pts = _shape(rng, 1, 6) if noncart else None
@@ -652,9 +660,9 @@ def mk_Ptx(rng, ishape, maxn):
     if ishape is not None:
         return None
     three = bool(rng.random() < 0.3)
-    dim = _shape(rng, 3 if three else 2, 3 if three else 4, minn=2)
-    nc = int(rng.integers(1, 4))
-    nt = int(rng.integers(1, 7))
+    dim = _shape(rng, 3 if three else 2, _cap(maxn, 3, 5) if three else _cap(maxn, 4, 9), minn=2)
+    nc = int(rng.integers(1, _cap(maxn, 4, 8)))
+    nt = int(rng.integers(1, _cap(maxn, 7, 40)))
     return {"op": "PtxSpatialExplicit", "ishape": [nc, nt], "oshape": dim, "nc": nc, "nt": nt,
             "b0": bool(rng.random() < 0.5), "aseed": _aseed(rng)}
 
